@@ -7,7 +7,9 @@ Record obs20 := { b_bytes : list N;      (* bytes read from guest memory after w
                   b_native : N;          (* to_native() / u::from(w) *)
                   b_eq1 : bool; b_eq2 : bool;   (* w == x, x == w *)
                   b_size : N; b_align : N;      (* size_of / align_of the wrapper *)
-                  b_nsize : N; b_nalign : N }.  (* size_of / align_of the native type *)
+                  b_nsize : N; b_nalign : N;    (* size_of / align_of the native type *)
+                  b_routes : bool }.            (* every other storage route (typed reference, element array at index >= 1,
+                                                  bulk array copy) produced the same bytes / returned the same value *)
 
 Definition wire_bytes (t : ety) (v : N) : list N :=
   let le := map (byte_at v) (seq 0 (e_size t)) in
@@ -17,4 +19,4 @@ Definition ok_C20 (c : case20) (o : obs20) : bool :=
   list_eqb (b_bytes o) (wire_bytes (k_ty c) (k_v c)) &&
   (b_native o =? k_v c) &&
   Bool.eqb (b_eq1 o) (k_v c =? k_x c) && Bool.eqb (b_eq2 o) (k_v c =? k_x c) &&
-  (b_size o =? b_nsize o) && (b_align o =? b_nalign o) && (b_size o =? N.of_nat (e_size (k_ty c))).
+  (b_size o =? b_nsize o) && (b_align o =? b_nalign o) && (b_size o =? N.of_nat (e_size (k_ty c))) && b_routes o.
